@@ -29,6 +29,11 @@ METER_TYPE = "1.1.96.1.1.255"
 OBIS6 = re.compile(r"^\d+(\.\d+){5}$")
 
 
+def _pts(M):
+    from sa.decoders import parse_target_sets
+    return parse_target_sets(M, MOD)
+
+
 def _reg_vs_const(term):
     """an ordering test of a transmitted register against an integer constant that registers of every width can fall on either side of"""
     from sa.abseval import Sym
@@ -289,6 +294,9 @@ def check(src, rep):
     tg = parse_targets(M, MOD)
     if list(routes(frame, bodyg)) and tg == {"decode_frame_content": "LlcPdu", "decode_notification_body": "NotificationBody"}:
         rep.ok("R5", "frame = body", "LlcPdu wraps the same NotificationBody grammar; both entry points share the item normaliser")
+    elif None in tg.values() and list(routes(frame, bodyg)) and all(_pts(M).get(k_) for k_ in tg) and _pts(M) != {"decode_frame_content": {"LlcPdu"}, "decode_notification_body": {"NotificationBody"}}:
+        rep.violation("R5", "kamstrup", "frame-body", "an entry point does not parse its input with its own grammar (frames with LlcPdu, bare bodies with NotificationBody)", file, 1,
+                      witness=f"grammars reached: { {k_: sorted(v_) for k_, v_ in _pts(M).items()} }")
     elif None in tg.values() and list(routes(frame, bodyg)):
         rep.undecide(f"R5 cannot see which grammar the entry points parse their input with ({tg})")
     else:
